@@ -29,7 +29,9 @@ Ok(S, e, S2) ==
    /\ CASE e.op = "add"  -> AddOK(e.bnd, S, e.id, e.pt, e.res, S2)
         [] e.op = "rmpt" -> RemovePointOK(S, e.pt, e.res, S2)
         [] e.op = "rmid" -> RemoveIdOK(S, e.id, e.res, S2)
-        [] e.op = "query" -> S2 = S                           \* read-only step (C19): contents unchanged
+        [] e.op = "query" -> /\ S2 = S                        \* read-only step (C19): contents unchanged,
+                             /\ e.nodes = e.nodes0             \* the node tree is identical before and after,
+                             /\ e.finds = e.afinds /\ e.knn = e.aknn /\ e.inb = e.ainb   \* same answers as alone
         [] OTHER -> FALSE
    /\ NodesOk(S2, e)
    /\ Queries(S2, e)
